@@ -1,5 +1,114 @@
-"""Entry-point level rules shared by C05 / C09 / C14 / C18 (placeholder until the entry-point model lands)."""
+"""Entry-point level analysis shared by C05 (R5.3), C09, C14, C18: runs the abstract evaluator with the
+entry-point model over every public query entry point of Interp1D / Interp2D for each scenario."""
+from ..absint import *
+from ..epmodel import *
+from ..thir import Lib, strip_generics
+
+ENTRIES = ['interp_scalar', 'interp', 'interp_into', 'interp_array', 'interp_array_into']
+
+
+class Run:
+    def __init__(self, name, lead, scn, model, outcome, value=None, exc=None):
+        self.name, self.lead, self.scn, self.m, self.outcome, self.value, self.exc = name, lead, scn, model, outcome, value, exc
+
+    def __repr__(self):
+        return "Run(%s lead=%d %s -> %s sinks=%d)" % (self.name, self.lead, {k: v for k, v in self.scn.items()}, self.outcome, len(self.m.sinks))
+
+
+def run_entry(lib, lead, name, scn):
+    """scn: fast(bool), shape_ok(bool), qshape_ok(bool), sink('ok'|'err')"""
+    prefix = 'interp1d::Interp1D::' if lead == 1 else 'interp2d::Interp2D::'
+    body = lib.body(prefix + name)
+    if body is None:
+        return None
+    m = EPModel(dict(scn))
+    it = Interp(lib, m)
+    strat = Obj('custom_strategy')
+    heads = [('s', 'd0')] if lead == 1 else [('s', 'd0'), ('s', 'd1')]
+    data_items = heads if name == 'interp_scalar' else heads + [('seq', 'T')]
+    ip = m.make_interp(lead, strat, data_items)
+    m.qdim = Dim([('s', 'q0')]) if scn.get('fast') else Dim([('seq', 'Q')])
+    args = [Ref(ValPlace(ip))]
+    qn = ['qx'] if lead == 1 else ['qx', 'qy']
+    if name in ('interp_scalar', 'interp', 'interp_into'):
+        args += [Num(Rat.atom(q)) for q in qn]
+    else:
+        xs = Obj('ndarr', name='xs', shape=m.qdim, role='query')
+        args.append(Ref(ValPlace(xs)))
+        if lead == 2:
+            ys = Obj('ndarr', name='ys', shape=Dim([('seq', 'Y')]), role='query')
+            args.append(Ref(ValPlace(ys)))
+    m.buf = None
+    if name in ('interp_into', 'interp_array_into'):
+        bshape = Dim([('s', 'b0'), ('seq', 'BT')]) if (scn.get('fast') and name == 'interp_array_into') else Dim([('seq', 'B')])
+        buf_root = Obj('ndarr', name='buf', shape=bshape, role='caller')
+        m.buf = Obj('view', root=buf_root, rootkind='caller', shape=buf_root.d['shape'], lead=None, ones=Rat.const(0))
+        args.append(m.buf)
+    try:
+        out = deref_all(it.call_def(body['def'], args))
+        return Run(name, lead, scn, m, 'return', out)
+    except Diverge as d:
+        return Run(name, lead, scn, m, 'panic', exc=d)
+    except Unsupported as u:
+        return Run(name, lead, scn, m, 'unsupported', exc=u)
+
+
+def scenarios(name, lead):
+    if name in ('interp_scalar', 'interp', 'interp_into'):
+        for sink in ('ok', 'err'):
+            yield {'sink': sink}
+        return
+    for fast in (True, False):
+        for sink in ('ok', 'err'):
+            for shape_ok in ((True, False) if name == 'interp_array_into' else (True,)):
+                for qshape_ok in ((True, False) if lead == 2 else (True,)):
+                    yield {'fast': fast, 'sink': sink, 'shape_ok': shape_ok, 'qshape_ok': qshape_ok}
+
+
+def all_runs(lib):
+    runs = []
+    for lead in (1, 2):
+        for name in ENTRIES:
+            for scn in scenarios(name, lead):
+                r = run_entry(lib, lead, name, scn)
+                if r is not None:
+                    runs.append(r)
+    return runs
+
+
+def is_ok(v):
+    return isinstance(v, Enum) and v.adt == 'std::result::Result' and v.variant == 'Ok'
+
+
+def is_err(v):
+    return isinstance(v, Enum) and v.adt == 'std::result::Result' and v.variant == 'Err'
 
 
 def batch_short_circuit(chk, lib, rule):
-    return
+    """R5.3 / R18.4 on the batch paths: the first Err of the sink is what the entry point returns, unchanged,
+    and no further sink call follows it."""
+    n = 0
+    for lead in (1, 2):
+        for name in ('interp_array', 'interp_array_into'):
+            for fast in (True, False):
+                scn = {'fast': fast, 'sink': 'err', 'shape_ok': True, 'qshape_ok': True}
+                r = run_entry(lib, lead, name, scn)
+                key = '%dd-%s-%s' % (lead, name, 'fast' if fast else 'general')
+                if r is None:
+                    chk.ob(rule, "entry point %s exists" % key, False, '', key + '-missing')
+                    continue
+                n += 1
+                if r.outcome != 'return':
+                    chk.ob(rule, "%s: batch path with a failing element returns (got %s: %s)" % (key, r.outcome, r.exc), False,
+                           r.exc.where if r.exc else '', key + '-shape')
+                    continue
+                same = is_err(r.value) and deref_all(r.value.fields['0']) is getattr(r.m, 'err_token', None)
+                chk.ob(rule, "%s: the strategy's error for a failing element is returned unchanged as the result of the whole call" % key,
+                       same, lib.body(('interp1d::Interp1D::' if lead == 1 else 'interp2d::Interp2D::') + name)['span'], key + '-err-identity')
+                chk.ob(rule, "%s: exactly one strategy call happens for the failing element and none after it (got %d)" % (key, len(r.m.sinks)),
+                       len(r.m.sinks) == 1, '', key + '-no-call-after-error')
+                if fast:
+                    steps = [ev for ev in r.m.events if ev[0] == 'fold_step']
+                    chk.ob(rule, "%s: the fold step maps Err(e) to FoldWhile::Done (which stops the Zip), got %s" % (key, steps),
+                           steps == [('fold_step', 'e', 'Done')], '', key + '-done')
+    return n
